@@ -36,23 +36,33 @@ PROP = {'streams': [('c03', 250, 20000)],
               'permissive_validation_sound_partial',
               'permissive_validation_sound_static_partial',
               'impossible_policy_never_satisfied_static_permissive',
+              'typeOf_sound_permissive',
+              'permissive_sound_full',
+              'typeOf_ndTy',
+              'typeOf_ndTy_strict',
+              'accepted_boolean_or_permitted_error_permissive',
+              'typed_false_never_satisfied_permissive',
+              'permissive_validation_sound',
+              'permissive_validation_sound_static',
+              'impossible_policy_never_satisfied_permissive',
+              'ex2_schemaND',
               'ex2_schemaWF',
               'ex2_store'],
  'assumptions': ['soundness is PROVED for STRICT mode on the fragment `Cedar.C03.InFragment2` named in Thm/C03.lean: every construct of the model '
                  '(literals, variables, linked slots, && || ! if with arbitrary branches, unary -, + - *, ==, < <= incl. datetime/duration, like, '
                  'is, has and . on records and entities with capabilities, hasTag/getTag, set and record literals, '
                  'contains/containsAll/containsAny/isEmpty, in incl. the descendants-based False and the action-literal special cases, extension '
-                 'calls; unknown vacuously); for PERMISSIVE mode on `InFragmentP` (Lemmas/TypecheckPSound.lean; full statement kept as '
-                 '`def PermissiveSoundFull`): the constructs of `InFragmentM .permissive` (all of the above, an if having a syntactically flat '
-                 'branch and a set literal being non-empty with flat elements) closed under if with ARBITRARY branch types joined by the '
-                 'permissive least upper bound (entity-type unions, record joins; the then branch a literal / principal / action / resource / '
-                 'slot / flat expression), set literals of such elements of arbitrary types and [] (Set<Never>), and == contains containsAll '
-                 'containsAny isEmpty && || ! over such operands; the subtyping lemma `instance_of_lub` (every value of either argument inhabits '
-                 'the permissive bound; left argument with distinct record keys) is proved in general. NOT proved: has / . / tags / in / is / < '
-                 'applied to an operand typed with an entity-type union or a joined record type (e.g. `(if c then principal else resource).name`), '
-                 'joins whose then branch is itself an attribute access / record literal / join, slots in environments without a slot type '
-                 '(unreachable: link_request_env types every slot of the policy) and record literals with duplicate keys (not representable in '
-                 'Rust) - these are covered by the differential run and the implementation-level soundness search only',
+                 'calls; unknown vacuously); for PERMISSIVE mode the FULL statement `PermissiveSoundFull` is PROVED (`permissive_sound_full`, '
+                 '`typeOf_sound_permissive`, Lemmas/TypecheckPFull.lean): every expression with distinct record-literal keys (Rust: '
+                 'ExprKind::Record is a map) and slots linked in the environment (link_request_env types every slot of the policy), with NO '
+                 'restriction on the static types of sub-expressions - if / set literals joining arbitrary types by the permissive least upper '
+                 'bound (entity-type unions, AnyEntity, record joins, Set<Never>), and has / . / hasTag / getTag / in / is / < on operands typed '
+                 'with an entity-type union, AnyEntity or a joined (open) record type; it needs the additional premise SchemaND (see below). '
+                 'NOT covered: a slot in an environment without a slot type (typed AnyEntity by Rust; unreachable), record literals with '
+                 'duplicate keys (not representable in Rust), unknown (outside the model)',
+                 'SchemaND: every record type the resolved schema declares (entity shapes, tag types, action contexts, nested) has distinct '
+                 'keys - true of every schema Rust constructs (`Attributes` is a BTreeMap); without it the permissive bound of the MODEL '
+                 '(attribute lists) may keep an entry that lookup does not see',
                  'strict_implies_permissive is PROVED (same type and capabilities in both modes; policy level: same verdicts) for every '
                  'expression of the strict fragment under SchemaWF3 (record types declared by the schema are closed with distinct keys; the '
                  'action table is a map); without SchemaWF3 only for expressions whose least upper bounds have a flat side (`SIPFragment`); it '
@@ -74,19 +84,22 @@ TEXT = ('Lean model `typeOf` mirroring SingleEnvTypechecker::typecheck case by c
  'datetime, duration), like, is, has/. on records and entities with capabilities, hasTag/getTag, set literals, contains/containsAll/containsAny/'
  'isEmpty, record literals (distinct keys), in (general rule with the descendants-based False, action-literal special cases True/False), extension '
  'calls — under schema well-formedness SchemaWF2, conformance of request and store, presence of the action entities, bound slots; and for BOTH modes '
- 'on `InFragmentM` (`typeOf_sound_partialM`: in permissive mode an if needs a syntactically flat branch, a set literal flat elements), and for PERMISSIVE '
- 'mode on the larger `InFragmentP` (`typeOf_sound_permissive_partial`): if with arbitrary branch types joined by the permissive least upper bound '
- '(entity-type unions, record joins with width/depth subtyping and open records - `instance_of_lub`), set literals of mixed entity types and [], and '
- '== contains* isEmpty && || ! over them, with policy-level `permissive_validation_sound_partial` and examples that permissive mode accepts and strict '
- 'mode rejects (full permissive statement: `def PermissiveSoundFull`, not proved for attribute/tag access, in, is on union-typed operands). Corollaries for both fragments: accepted => boolean or permitted error, typed False / '
+ 'on `InFragmentM` (`typeOf_sound_partialM`), and IN FULL FOR PERMISSIVE MODE (`permissive_sound_full : PermissiveSoundFull`, '
+ '`typeOf_sound_permissive`): every expression with distinct record-literal keys and linked slots, under the extra premise SchemaND (schema record '
+ 'types have distinct keys - BTreeMap in Rust) - if / set literals with arbitrary branch / element types joined by the permissive least upper bound '
+ '(entity-type unions, AnyEntity, record joins with width/depth subtyping and open records, Set<Never>; `instance_of_lub`), and has / . / hasTag / '
+ 'getTag / in / is / < on union-typed operands (`lubAttrs` / `tagTypes` / `anyDescendantOf` of a union related to conformant stores: an entity of ANY '
+ 'member type respects the attribute / tag type computed for the union); type invariant `typeOf_ndTy` (types produced have distinct record keys, '
+ 'Never only as a set element type); policy level `permissive_validation_sound` (no fragment), with examples that permissive mode accepts, strict '
+ 'mode rejects and the previous fragment did not contain. Corollaries: accepted => boolean or permitted error, typed False / '
  'impossible => never satisfied, and the policy-level forms over checkPolicy (the environment of a conformant request is among those '
  'typechecked); strict => permissive with identical type, capabilities and per-environment verdicts for every expression of the strict fragment (schemas '
  'with closed, distinct-key record types); a concrete '
- 'schema/request/store/policy instantiates every hypothesis (non-vacuity). Permissive typing of the '
- 'constructs outside `InFragmentP` is covered by the differential run (model vs Typechecker::typecheck_by_request_env per policy, environment and '
+ 'schema/request/store/policy instantiates every hypothesis (non-vacuity). The model itself is tied to Rust '
+ 'by the differential run (model vs Typechecker::typecheck_by_request_env per policy, environment and '
  "mode) and by the implementation-level soundness search: every strict-accepted generated policy is evaluated on conformant requests/stores (Rust's "
  'own schema-based validation) and every evaluated subexpression of the typed AST must inhabit its annotated type; plus non-vacuity (documented '
  'has/hasTag guard idioms accepted) and strict-accepted => permissive-accepted on all generated policies.',
- 'proof over a hand-written model: strict mode for all constructs, permissive mode for a stated smaller fragment only; the model is '
+ 'proof over a hand-written model: strict and permissive mode for all constructs (distinct record keys, linked slots; schema well-formedness SchemaWF2 + SchemaND assumed); the model is '
  "tied to Rust by sampling (generators in harness/src/gen_typed.rs, gen_schema.rs); the resolved schema is serialised from Rust's ValidatorSchema "
  'and its well-formedness (SchemaWF2) is assumed; strict=>permissive is proved for the strict fragment under a schema well-formedness assumption and tested on the implementation')
